@@ -539,3 +539,93 @@ Proof.
   - rewrite Hl. apply flat_map_length3. intros a. reflexivity.
   - intros j Hj. apply (nth_flat_triple vec_nrm). lia.
 Qed.
+
+(* ---------- the model's answer on a large synthetic file (corr_ok beyond exec_limit) ---------- *)
+Lemma vec_okb_ok v : vec_okb v = true -> vec_ok v.
+Proof. destruct v as [[x y] z]. unfold vec_okb, vec_ok, word32. lia. Qed.
+
+Lemma tri_okb_ok t : tri_okb t = true -> tri_ok t.
+Proof.
+  unfold tri_okb, tri_ok. rewrite !andb_true_iff. intros ((((Hn & Ha) & Hb) & Hc) & Hat).
+  repeat (split; [apply vec_okb_ok; assumption|]). unfold word16. lia.
+Qed.
+
+Lemma forallb_tri_ok ts : forallb tri_okb ts = true -> Forall tri_ok ts.
+Proof. rewrite forallb_forall, Forall_forall. intros H t Ht. apply tri_okb_ok, H, Ht. Qed.
+
+(* every byte string made of a header, the count, well-formed records and ANY trailing bytes is read back as
+   exactly those records by the chunked reader *)
+Theorem big_file_model hdr ts extra :
+  length hdr = 80%nat -> forallb tri_okb ts = true -> N.of_nat (length ts) < 4294967296 ->
+  read_chunked stl_chunk (write hdr ts ++ extra) = Some (hdr, ts).
+Proof.
+  intros Hh Hok Hn. rewrite read_chunked_eq_read by (unfold stl_chunk; lia).
+  apply read_write_trailing; [assumption|apply forallb_tri_ok; assumption|assumption].
+Qed.
+
+(* ... and cut short anywhere it is rejected *)
+Theorem big_file_cut_model hdr ts k :
+  length hdr = 80%nat -> bytes_ok hdr -> N.of_nat (length ts) < 4294967296 ->
+  (k < length (write hdr ts))%nat -> read_chunked stl_chunk (firstn k (write hdr ts)) = None.
+Proof.
+  intros Hh Hb Hn Hk. rewrite read_chunked_eq_read by (unfold stl_chunk; lia).
+  apply read_prefix_rejected; assumption.
+Qed.
+
+(* ---------- large meshes: index and position lists given by functions (corr_ok CBigMesh) ---------- *)
+Lemma nth_error_iota k : forall a i, (i < k)%nat -> nth_error (iotaN k a) i = Some (a + N.of_nat i).
+Proof.
+  induction k as [|k IH]; intros a i Hi; [lia|]. destruct i as [|i]; cbn [iotaN nth_error].
+  - f_equal. lia.
+  - rewrite IH by lia. f_equal. lia.
+Qed.
+
+Lemma nth_error_map_iota {A} (f : N -> A) nv v : v < N.of_nat nv ->
+  nth_error (map f (iotaN nv 0)) (N.to_nat v) = Some (f v).
+Proof.
+  intros Hv. rewrite nth_error_map, nth_error_iota by lia. cbn [option_map]. f_equal. f_equal. lia.
+Qed.
+
+Lemma iota_S3 n a : iotaN (3 * S n) a = a :: (a + 1) :: (a + 2) :: iotaN (3 * n) (a + 3).
+Proof.
+  replace (3 * S n)%nat with (S (S (S (3 * n)))) by lia. cbn [iotaN].
+  replace (a + 1 + 1) with (a + 2) by lia. replace (a + 2 + 1) with (a + 3) by lia. reflexivity.
+Qed.
+
+Lemma gather_tris_fun_from (g : N -> N) (f fn : N -> vec) nv n : forall t0,
+  (forall j, g j < N.of_nat nv) ->
+  gather_tris (map (fun j => N.to_nat (g j)) (iotaN (3 * n) (3 * t0))) (map f (iotaN nv 0)) (map fn (iotaN n t0))
+  = Some (tris_from n t0 fn (fun j => f (g j))).
+Proof.
+  induction n as [|n IH]; intros t0 Hg; [reflexivity|].
+  rewrite iota_S3. cbn [iotaN map gather_tris].
+  rewrite !nth_error_map_iota by apply Hg. cbn [bind].
+  replace (3 * t0 + 3) with (3 * (t0 + 1)) by lia. rewrite IH by assumption. cbn [bind tris_from]. reflexivity.
+Qed.
+
+(* stl.WriteMesh on the mesh with nv vertices (vertex v at position f v), index buffer j |-> g j for j < 3 n and
+   facet normals fn: the bytes are [write zero_hdr] of the records Check/C07.v builds with [tris_from]
+   (further indices after the last whole triangle do not matter: PrimitiveCount rounds down) *)
+Theorem big_mesh_model (g : N -> N) (f fn : N -> vec) nv n part :
+  (forall j, g j < N.of_nat nv) ->
+  write_mesh (map (fun j => N.to_nat (g j)) (iotaN (3 * n) 0) ++ part) (Some (map f (iotaN nv 0))) (map fn (iotaN n 0))
+  = Some (write zero_hdr (tris_from n 0 fn (fun j => f (g j)))).
+Proof.
+  intros Hg. unfold write_mesh.
+  assert (E : forall fns idx pos ts, gather_tris idx pos fns = Some ts -> length idx = (3 * length fns)%nat ->
+              gather_tris (idx ++ part) pos fns = Some ts).
+  { induction fns as [|x fns IH]; intros idx pos ts H Hl.
+    - destruct idx; [|discriminate]. cbn [app]. destruct part as [|? [|? [|? ?]]]; exact H.
+    - destruct idx as [|i [|j [|k idx]]]; try (simpl in Hl; lia). cbn [app gather_tris] in *.
+      destruct (nth_error pos i); cbn [bind] in *; [|discriminate].
+      destruct (nth_error pos j); cbn [bind] in *; [|discriminate].
+      destruct (nth_error pos k); cbn [bind] in *; [|discriminate].
+      destruct (gather_tris idx pos fns) as [ts'|] eqn:E'; cbn [bind] in *; [|discriminate].
+      rewrite (IH idx pos ts' E') by (simpl in Hl; lia). exact H. }
+  pose proof (gather_tris_fun_from g f fn nv n 0 Hg) as G. change (3 * 0) with 0 in G.
+  rewrite (E _ _ _ _ G).
+  - reflexivity.
+  - rewrite !map_length. clear. generalize 0 at 1. generalize 0.
+    assert (L : forall k a, length (iotaN k a) = k) by (induction k; intros; simpl; auto).
+    intros. rewrite !L. reflexivity.
+Qed.
